@@ -38,7 +38,8 @@ def check(run, prog, tier):
         raise AnalysisError("find sending functions vanished")
     run.analysed(sf, found, start)
     me = ("self", DISC)
-    eng = engine(prog, InlineOnly(names=(), props=False, max_depth=0, unroll=2))
+    U = 3 if tier == "thorough" else 2
+    eng = engine(prog, InlineOnly(names=(), props=False, max_depth=0, unroll=U))
     paths = eng.paths(sf, recv=DISC)
     run.paths += len(paths)
     leaf = timing_leaf(me)
@@ -150,9 +151,9 @@ def check(run, prog, tier):
         for e in p.events:
             if e.kind == "call" and any(f.qual == send_sd.qual for f in e.targets) and e.loopdepth == 0:
                 outside.add(id(e.node))
-    run.ob("N2", f"{sf.qual}:rounds-bounded", rep_ok and len(outside) == 1 and max_sends == 3, loc(sf),
+    run.ob("N2", f"{sf.qual}:rounds-bounded", rep_ok and len(outside) == 1 and max_sends == 1 + U, loc(sf),
            f"one initial round plus one per iteration of range(REPETITIONS_MAX) ({len(outside)} transmission site(s) outside the loop; "
-           f"{max_sends} rounds on the longest path with 2 unrolled repetitions)")
+           f"{max_sends} rounds on the longest path with {U} unrolled repetitions)")
     # empty list => return (decided semantically: the path with the first list empty has no transmission)
     first_empty = [p for p in paths if p.returns() and not calls_to(p, send_sd.qual) and any(e.kind == "await" for e in p.events)]
     run.ob("N2", f"{sf.qual}:nothing-to-ask-nothing-sent", bool(first_empty), loc(sf), "when nothing is left to ask for, nothing is transmitted")
